@@ -133,27 +133,85 @@ theorem slice_append {α} (l x : List α) (s e : Int) (hs : 0 ≤ s) (he : 0 ≤
   · have : e.toNat - s.toNat = 0 := by omega
     simp [this]
 
+/-- the frame access skeleton only ever hands a validated index (0 ≤ idx < n) to its raw-bytes function -/
+theorem frameBits_congr (sk : Skel) (f g : Int → Except ErrKind (List Nat)) (rows cols samples n k : Int) (ai : Bool)
+    (h : ∀ idx, 0 ≤ idx → idx < n → f idx = g idx) :
+    sk.frameBits f rows cols samples n k ai = sk.frameBits g rows cols samples n k ai := by
+  unfold Skel.frameBits
+  simp only [bind, Except.bind]
+  cases sk.index n k ai with
+  | error e => rfl
+  | ok idx =>
+    simp only []
+    cases sk.rawArgs k ai idx with
+    | error e => rfl
+    | ok r =>
+      obtain ⟨rk, rai⟩ := r
+      simp only []
+      cases hs : stdFrameIndex rk rai n with
+      | error e => rfl
+      | ok ridx =>
+        have hr := (stdFrameIndex_ok_iff rk n rai ridx).mp hs
+        simp only [h ridx hr.1 hr.2.1]
+
+theorem frameBytes_congr (sk : Skel) (f g : Int → Except ErrKind (List Nat)) (n k : Int) (ai : Bool)
+    (h : ∀ idx, 0 ≤ idx → idx < n → f idx = g idx) :
+    sk.frameBytes f n k ai = sk.frameBytes g n k ai := by
+  unfold Skel.frameBytes
+  simp only [bind, Except.bind]
+  cases sk.index n k ai with
+  | error e => rfl
+  | ok idx =>
+    simp only []
+    cases sk.rawArgs k ai idx with
+    | error e => rfl
+    | ok r =>
+      obtain ⟨rk, rai⟩ := r
+      simp only []
+      cases hs : stdFrameIndex rk rai n with
+      | error e => rfl
+      | ok ridx =>
+        have hr := (stdFrameIndex_ok_iff rk n rai ridx).mp hs
+        simp only [h ridx hr.1 hr.2.1]
+
 theorem memFrameBits_append (frames : List (List Bool)) (rows cols : Nat) (hn : 0 < rows * cols)
     (hlen : ∀ f ∈ frames, f.length = rows * cols) (i : Nat) (hi : i < frames.length) (extra : List Nat) :
     memFrameBits (pack frames.flatten ++ extra) rows cols 1 frames.length ((i : Int) + 1) false = .ok frames[i] := by
-  have h0 := mem_frame_bits frames rows cols hn hlen i hi
-  have h1 : stdFrameIndex ((i : Int) + 1) false frames.length = .ok (i : Int) := by
-    rw [stdFrameIndex_ok_iff]; simp; omega
-  unfold memFrameBits memRaw at h0 ⊢
-  rw [h1] at h0 ⊢
-  simp only [bind, Except.bind] at h0 ⊢
-  rw [rawFrameRange_bit (i : Int) ((rows * cols : Nat) : Int) rows cols (by push_cast; rfl) (by omega)] at h0 ⊢
-  simp only at h0 ⊢
+  rw [← mem_frame_bits frames rows cols hn hlen i hi]
+  unfold memFrameBits
+  apply frameBits_congr
+  intro idx h0 hN
+  obtain ⟨j, rfl⟩ : ∃ j : Nat, idx = (j : Int) := ⟨idx.toNat, by omega⟩
+  have hj : j < frames.length := by exact_mod_cast hN
+  unfold memRaw
+  rw [rawFrameRange_bit (j : Int) ((rows * cols : Nat) : Int) rows cols (by push_cast; rfl) (by omega)]
+  simp only [bind, Except.bind]
   rw [slice_append]
-  · exact h0
   · positivity
   · positivity
   · rw [pack_length, flatten_length frames (rows * cols) hlen]
-    have e : (((i : Int) + 1) * ((rows * cols : Nat) : Int) + 7) / 8 = (((i + 1) * (rows * cols) + 7) / 8 : Nat) := by
+    have e : (((j : Int) + 1) * ((rows * cols : Nat) : Int) + 7) / 8 = (((j + 1) * (rows * cols) + 7) / 8 : Nat) := by
       push_cast; rfl
     rw [e, Int.toNat_natCast]
-    have : (i + 1) * (rows * cols) ≤ frames.length * (rows * cols) := Nat.mul_le_mul_right _ hi
+    have : (j + 1) * (rows * cols) ≤ frames.length * (rows * cols) := Nat.mul_le_mul_right _ hj
     omega
+
+/-- byte range of frame `idx` of a native image with >= 8 bits, in closed form -/
+theorem memRaw_bytes (pd : List Nat) (rows cols bits : Nat) (hb : bits ≠ 1) (j : Nat) :
+    memRaw pd rows cols 1 bits "MONOCHROME2" (j : Int) =
+      slice pd ((j * (bits * (rows * cols * 1) / 8) : Nat) : Int)
+        ((j * (bits * (rows * cols * 1) / 8) + bits * (rows * cols * 1) / 8 : Nat) : Int) := by
+  unfold memRaw rawFrameRange
+  have hb' : (((bits : Int)) == 1) = false := by
+    have : (bits : Int) ≠ 1 := by exact_mod_cast hb
+    simpa using this
+  simp only [show ("MONOCHROME2" == "YBR_FULL_422") = false by decide, hb', Bool.false_and, Bool.false_eq_true,
+    ↓reduceIte, fdiv_pos _ 8 (by omega), bind, Except.bind]
+  have e' : (bits : Int) * ((rows : Int) * cols * 1) / 8 = ((bits * (rows * cols * 1) / 8 : Nat) : Int) := by
+    push_cast; rfl
+  rw [e']
+  push_cast
+  rfl
 
 theorem memFrameBytes_append (frames : List (List Nat)) (rows cols bits : Nat) (hb : bits ≠ 1)
     (hlen : ∀ f ∈ frames, f.length = bits * (rows * cols * 1) / 8)
@@ -162,24 +220,13 @@ theorem memFrameBytes_append (frames : List (List Nat)) (rows cols bits : Nat) (
       = .ok frames[i] := by
   have h1 : stdFrameIndex ((i : Int) + 1) false frames.length = .ok (i : Int) := by
     rw [stdFrameIndex_ok_iff]; simp; omega
-  unfold memFrameBytes memRaw
+  unfold memFrameBytes Skel.frameBytes Skel.index
+  simp only [singleSkel, singleStdArgs, singleRawArgs, bind, Except.bind]
   rw [h1]
-  simp only [bind, Except.bind]
-  unfold rawFrameRange
-  have hb' : (((bits : Int)) == 1) = false := by
-    have : (bits : Int) ≠ 1 := by exact_mod_cast hb
-    simpa using this
-  simp only [show ("MONOCHROME2" == "YBR_FULL_422") = false by decide, hb', Bool.false_and, Bool.false_eq_true,
-    ↓reduceIte, fdiv_pos _ 8 (by omega)]
-  have e : (bits : Int) * ((rows : Int) * cols * ((1 : Nat) : Int)) / 8 = ((bits * (rows * cols * 1) / 8 : Nat) : Int) := by
-    push_cast; rfl
-  have e' : (bits : Int) * ((rows : Int) * cols * 1) / 8 = ((bits * (rows * cols * 1) / 8 : Nat) : Int) := by
-    push_cast; rfl
-  rw [e']
+  simp only []
+  rw [memRaw_bytes _ rows cols bits hb i]
   generalize hL : bits * (rows * cols * 1) / 8 = L at *
-  have e2 : (i : Int) * (L : Int) = ((i * L : Nat) : Int) := by push_cast; rfl
-  have e3 : ((i * L : Nat) : Int) + (L : Int) = ((i * L + L : Nat) : Int) := by push_cast; rfl
-  rw [e2, e3, slice_append _ _ _ _ (by positivity) (by positivity), slice_nat]
+  rw [slice_append _ _ _ _ (by positivity) (by positivity), slice_nat]
   · unfold pySlice
     have : i * L + L - i * L = L := by omega
     rw [this, flatten_drop_take frames L hlen i hi]
